@@ -49,6 +49,9 @@ def _monotonic_factorization(arr_list, total_len):
     arr_num = 0
     arr = arr_list[arr_num]
 
+    if arr[0] != arr[0]:
+        # a null first key: no prefix is monotonic (and nulls get no label)
+        return 0, codes, labels[:0]
     labels[0] = arr[0]
     n_labels = 1
     codes[0] = 0
@@ -63,7 +66,8 @@ def _monotonic_factorization(arr_list, total_len):
             cur_arr_pos = 0
 
         x = arr[cur_arr_pos]
-        if x < prev:
+        if not x >= prev:
+            # a descent, or a null (every comparison with NaN/NaT is False)
             return i, codes, labels[:n_labels]
         elif x > prev:
             labels[n_labels] = x
